@@ -110,7 +110,7 @@ def prelude(defs, kotlin_errors=True, type_attr=None):
            "        pub bytes: Vec<u8>,\n        pub floats: Vec<f64>,\n        pub words: Vec<u32>,\n        pub wide: Vec<u16>,\n    }\n",
            ta("En") + err + "    pub enum En {\n        A,\n        B = 5,\n        C = -3,\n        D,\n        E = 4,\n    }\n"]
     for name, fields in defs["structs"].items():
-        lt = "<'a>" if name == "Brw" else ""
+        lt = "<'a>" if (name == "Brw" or any(mentions_borrow(f) for f in fields)) else ""
         attr = "    #[diplomat::out]\n" if name == "Os" else (err if name in ("Inner", "Wide") else "")
         fs = "".join("        pub %s: %s,\n" % (fname(i), rust_ty(f, "'a", in_struct=True)) for i, f in enumerate(fields))
         out.append(ta(name) + attr + "    pub struct %s%s {\n%s    }\n" % (name, lt, fs))
